@@ -42,12 +42,12 @@ Proof. exact blocks_only_waiting. Qed.
 Theorem C05_verdict_reported : forall (c : hcall) (e : N) (rest : list hitem) (s : hstate), c <> CNowait \/ h_mail_rx s = false -> h_replies s = HErr e :: rest -> exists s' : hstate, hstep c s = Some (RErrItem e, s') /\ h_replies s' = rest.
 Proof. exact verdict_reported. Qed.
 
-(* THE WHOLE SYSTEM, EVERY SCHEDULE (Model/Sys.v: any number of callers with their programs, the I/O thread, the server, and the I/O thread ENDING AT ANY MOMENT - action ADie - for whatever reason, with whatever in flight): in every reachable state in which the I/O thread has ended, a blocked caller's receive returns at once (the reply that was already queued, or an error: it is no longer waiting afterwards), and a caller's next call returns an error at once without handing anything over - every call in flight and every later call returns, nobody hangs *)
-Theorem C05_system_dead_releases : forall (answer : N -> N -> N) (bound qcap : N) (progs : N -> list call), 1 <= qcap -> forall (sched : list act) (n : N), let s := yrun answer bound qcap (init_sys progs) sched in y_dead s = true -> yc_wait (y_ch (ystep answer bound qcap s (ARecv n)) n) = false /\ yc_wait (y_ch (ystep answer bound qcap s (ASend n)) n) = yc_wait (y_ch s n) /\ (yc_wait (y_ch s n) = false -> yc_failed (y_ch s n) = false -> yc_prog (y_ch s n) <> [] -> yc_failed (y_ch (ystep answer bound qcap s (ASend n)) n) = true /\ yc_mail (y_ch (ystep answer bound qcap s (ASend n)) n) = yc_mail (y_ch s n)).
+(* THE WHOLE SYSTEM, EVERY SCHEDULE (Model/Sys.v: any number of callers with their programs, the I/O thread, the server - which may also close any channel at any moment -, and the I/O thread ENDING AT ANY MOMENT - action ADie - for whatever reason, with whatever in flight): in every reachable state in which the I/O thread has ended (or has dropped channel n's slot after the server's close), a blocked caller's receive returns at once (the reply that was already queued, the verdict, or an error: it is no longer waiting afterwards), and a caller's next call returns an error at once without handing anything over - every call in flight and every later call returns, nobody hangs *)
+Theorem C05_system_dead_releases : forall (answer : N -> N -> N) (bound qcap : N) (progs : N -> list call), 2 <= qcap -> forall (sched : list act) (n : N), let s := yrun answer bound qcap (init_sys progs) sched in y_dead s = true \/ yc_slot_gone (y_ch s n) = true -> yc_wait (y_ch (ystep answer bound qcap s (ARecv n)) n) = false /\ yc_wait (y_ch (ystep answer bound qcap s (ASend n)) n) = yc_wait (y_ch s n) /\ (yc_wait (y_ch s n) = false -> yc_failed (y_ch s n) = false -> yc_prog (y_ch s n) <> [] -> yc_failed (y_ch (ystep answer bound qcap s (ASend n)) n) = true /\ yc_mail (y_ch (ystep answer bound qcap s (ASend n)) n) = yc_mail (y_ch s n)).
 Proof. exact sys_dead_releases. Qed.
 
-(* ... and whenever it ends, what the calls returned before is still exactly the server's replies to that channel's own requests, in order; a caller is marked failed only after the I/O thread has ended *)
-Theorem C05_system_own_reply : forall (answer : N -> N -> N) (bound qcap : N) (progs : N -> list call), 1 <= qcap -> forall sched : list act, let s := yrun answer bound qcap (init_sys progs) sched in y_fail s = false /\ (forall n : N, let c := y_ch s n in yc_results c = map (answer n) (firstn (length (yc_results c)) (syncs (yc_issued c))) /\ (yc_wait c = false -> yc_failed c = false -> yc_results c = map (answer n) (syncs (yc_issued c))) /\ (yc_wait c = true -> exists r : N, syncs (yc_issued c) = firstn (length (yc_results c)) (syncs (yc_issued c)) ++ [r] /\ inflight answer s n = [answer n r]) /\ (yc_failed c = false -> (length (yc_replyq c) <= 1)%nat) /\ yc_issued c ++ yc_prog c = progs n /\ (yc_failed c = true -> y_dead s = true)).
+(* ... and whenever it ends, what the calls returned before is still exactly the server's replies to that channel's own requests, in order; a caller is marked failed only after the I/O thread has ended or the server has closed its channel *)
+Theorem C05_system_own_reply : forall (answer : N -> N -> N) (bound qcap : N) (progs : N -> list call), 2 <= qcap -> forall sched : list act, let s := yrun answer bound qcap (init_sys progs) sched in y_fail s = false /\ (forall n : N, let c := y_ch s n in yc_results c = map (answer n) (firstn (length (yc_results c)) (syncs (yc_issued c))) /\ (yc_srv_closed c = false -> yc_wait c = false -> yc_failed c = false -> yc_results c = map (answer n) (syncs (yc_issued c))) /\ (yc_srv_closed c = false -> yc_wait c = true -> exists r : N, syncs (yc_issued c) = firstn (length (yc_results c)) (syncs (yc_issued c)) ++ [r] /\ inflight answer s n = [answer n r]) /\ (length (yc_replyq c) <= 2)%nat /\ yc_issued c ++ yc_prog c = progs n /\ (yc_failed c = true -> y_dead s = true \/ yc_srv_closed c = true)).
 Proof. exact sys_own_reply. Qed.
 
 (* the caller's side of Connection::close (close_impl, Model/Close.v): whatever the close request on channel 0 itself returned (Ok, EventLoopDropped because the slot was dropped, the verdict left in the reply queue), an error the I/O thread ended with is what close() returns - the root cause, not a consequence of it *)
@@ -89,8 +89,8 @@ Check C05_releases_ch0 : forall (c : core) (z : ch0slot), c_ch0 c = Some z -> tx
 Check C05_dead_thread_never_blocks : forall (c : hcall) (s : hstate), h_reply_tx s = false -> h_mail_rx s = false -> h_replies s = [] -> hstep c s = Some (RDropped, s).
 Check C05_blocks_only_waiting : forall (c : hcall) (s : hstate), hstep c s = None -> h_reply_tx s = true /\ h_replies s = [].
 Check C05_verdict_reported : forall (c : hcall) (e : N) (rest : list hitem) (s : hstate), c <> CNowait \/ h_mail_rx s = false -> h_replies s = HErr e :: rest -> exists s' : hstate, hstep c s = Some (RErrItem e, s') /\ h_replies s' = rest.
-Check C05_system_dead_releases : forall (answer : N -> N -> N) (bound qcap : N) (progs : N -> list call), 1 <= qcap -> forall (sched : list act) (n : N), let s := yrun answer bound qcap (init_sys progs) sched in y_dead s = true -> yc_wait (y_ch (ystep answer bound qcap s (ARecv n)) n) = false /\ yc_wait (y_ch (ystep answer bound qcap s (ASend n)) n) = yc_wait (y_ch s n) /\ (yc_wait (y_ch s n) = false -> yc_failed (y_ch s n) = false -> yc_prog (y_ch s n) <> [] -> yc_failed (y_ch (ystep answer bound qcap s (ASend n)) n) = true /\ yc_mail (y_ch (ystep answer bound qcap s (ASend n)) n) = yc_mail (y_ch s n)).
-Check C05_system_own_reply : forall (answer : N -> N -> N) (bound qcap : N) (progs : N -> list call), 1 <= qcap -> forall sched : list act, let s := yrun answer bound qcap (init_sys progs) sched in y_fail s = false /\ (forall n : N, let c := y_ch s n in yc_results c = map (answer n) (firstn (length (yc_results c)) (syncs (yc_issued c))) /\ (yc_wait c = false -> yc_failed c = false -> yc_results c = map (answer n) (syncs (yc_issued c))) /\ (yc_wait c = true -> exists r : N, syncs (yc_issued c) = firstn (length (yc_results c)) (syncs (yc_issued c)) ++ [r] /\ inflight answer s n = [answer n r]) /\ (yc_failed c = false -> (length (yc_replyq c) <= 1)%nat) /\ yc_issued c ++ yc_prog c = progs n /\ (yc_failed c = true -> y_dead s = true)).
+Check C05_system_dead_releases : forall (answer : N -> N -> N) (bound qcap : N) (progs : N -> list call), 2 <= qcap -> forall (sched : list act) (n : N), let s := yrun answer bound qcap (init_sys progs) sched in y_dead s = true \/ yc_slot_gone (y_ch s n) = true -> yc_wait (y_ch (ystep answer bound qcap s (ARecv n)) n) = false /\ yc_wait (y_ch (ystep answer bound qcap s (ASend n)) n) = yc_wait (y_ch s n) /\ (yc_wait (y_ch s n) = false -> yc_failed (y_ch s n) = false -> yc_prog (y_ch s n) <> [] -> yc_failed (y_ch (ystep answer bound qcap s (ASend n)) n) = true /\ yc_mail (y_ch (ystep answer bound qcap s (ASend n)) n) = yc_mail (y_ch s n)).
+Check C05_system_own_reply : forall (answer : N -> N -> N) (bound qcap : N) (progs : N -> list call), 2 <= qcap -> forall sched : list act, let s := yrun answer bound qcap (init_sys progs) sched in y_fail s = false /\ (forall n : N, let c := y_ch s n in yc_results c = map (answer n) (firstn (length (yc_results c)) (syncs (yc_issued c))) /\ (yc_srv_closed c = false -> yc_wait c = false -> yc_failed c = false -> yc_results c = map (answer n) (syncs (yc_issued c))) /\ (yc_srv_closed c = false -> yc_wait c = true -> exists r : N, syncs (yc_issued c) = firstn (length (yc_results c)) (syncs (yc_issued c)) ++ [r] /\ inflight answer s n = [answer n r]) /\ (length (yc_replyq c) <= 2)%nat /\ yc_issued c ++ yc_prog c = progs n /\ (yc_failed c = true -> y_dead s = true \/ yc_srv_closed c = true)).
 Check C05_close_reports_root_cause : forall (req : req_res) (e : N), fst (close_impl true req (IoErr e)) = CErr e.
 Check C05_close_ok_iff : forall (req : req_res) (io : io_end), fst (close_impl true req io) = COk <-> io = IoOk /\ req = ReqOk.
 
